@@ -41,6 +41,8 @@ def cfg_fn(rng):
 
 
 class C08OpGen(OpGen):
+    scenarios = ("stale",)
+
     def gen_features(self, tracks):
         ik = self.iou_key(tracks)
         ks = [k for k in self.toggleable(tracks) if k != ik]
